@@ -1032,6 +1032,9 @@ def check(ctx: Ctx) -> None:
     check_pausing_and_killer(ctx)
     check_loopstop(ctx)
     check_deleted_event(ctx)
+    from . import _stoppers
+    _stoppers.check_flag_setter(ctx, 'R9.8')
+    _stoppers.check_runner_exit_order(ctx, 'R9.9')
 
 
 SPEC = PropSpec(
